@@ -834,20 +834,29 @@ class CallMixin:
         self._comp_start, self._comp_range = start_mark, crange
         return k, (it.length if (it is not None and crange is None) else None), vals, conds, sub, s
 
+    def _tid(self, t):
+        """id of a z3 term for use in a memo key.  z3 recycles the ids of terms that have been freed, so the term is kept
+        alive for the lifetime of this executor: otherwise a later, different term can get the same id and the memo
+        returns the list of another comprehension (seen as a rare, allocation-dependent wrong VC: the widths after
+        `ratio_reduce` without any of its postconditions)."""
+        ka = self.__dict__.setdefault("_memo_keepalive", [])
+        ka.append(t)
+        return t.get_id()
+
     def _val_key(self, v, st, depth=0):
         v0 = self.deref(v, st) if isinstance(v, VRef) else v
         if isinstance(v0, V):
-            return ("V", str(v0.sort), v0.t.get_id() if v0.t is not None else None)
+            return ("V", str(v0.sort), self._tid(v0.t) if v0.t is not None else None)
         if isinstance(v0, VSeq):
-            return ("S", tuple((p.kind, p.a.get_id() if p.a is not None and hasattr(p.a, "get_id") else None,
-                                z3.simplify(p.lo).get_id() if p.lo is not None else None,
-                                z3.simplify(p.hi).get_id() if p.hi is not None else None,
-                                tuple(z3.simplify(i).get_id() for i in p.items) if p.items else None) for p in v0.pieces))
+            return ("S", tuple((p.kind, self._tid(p.a) if p.a is not None and hasattr(p.a, "get_id") else None,
+                                self._tid(z3.simplify(p.lo)) if p.lo is not None else None,
+                                self._tid(z3.simplify(p.hi)) if p.hi is not None else None,
+                                tuple(self._tid(z3.simplify(i)) for i in p.items) if p.items else None) for p in v0.pieces))
         if isinstance(v0, VTuple):
             return ("T", tuple(self._val_key(x, st, depth + 1) for x in v0.items))
         if isinstance(v0, ObjState) and depth < 2:
             return ("O", v0.cls, tuple((f, self._val_key(x, st, depth + 1)) for f, x in sorted(v0.fields.items())))
-        return ("?", id(v0))
+        return ("?", object())  # never equal to anything: no memo for values of unknown kinds (id() of a dead object can come back)
 
     def _comp_key(self, node, st):
         """memo key of a comprehension: element / filter / target text, the *value* of what is iterated, and
